@@ -35,7 +35,7 @@ fn plan(tier: Tier) -> Plan {
             exhaustive: false,
         },
         Tier::Thorough => Plan {
-            cases: 400_000,
+            cases: 2_500_000,
             time_cap_s: 420,
             case_timeout_s: 20,
             exhaustive: false,
